@@ -1,6 +1,7 @@
 //! Part of the engine that links the crates under test: shared entry point
 //! and helpers used by several property checks.
 pub use mbvcore::*;
+pub mod battery;
 
 /// Common `main` of every check binary.
 pub fn main_wrap(prop: &str, run: fn(&mut Ctx)) {
